@@ -111,7 +111,7 @@ func loadKnown(prop string) []*Known {
 	var all []*Known
 	if err := json.Unmarshal(b, &all); err != nil {
 		fmt.Fprintln(os.Stderr, "worker: bad known findings file:", err)
-		os.Exit(2)
+		os.Exit(4)
 	}
 	var out []*Known
 	for _, k := range all {
@@ -221,7 +221,7 @@ func Main(t *testing.T, e Engine) {
 		determinism(t, e)
 	default:
 		fmt.Fprintf(os.Stderr, "worker: unknown VERIF_MODE %q\n", mode)
-		os.Exit(2)
+		os.Exit(4)
 	}
 }
 
@@ -236,12 +236,12 @@ func batch(t *testing.T, e Engine) {
 	out := os.Getenv("VERIF_OUT")
 	if out == "" {
 		fmt.Fprintln(os.Stderr, "worker: VERIF_OUT required")
-		os.Exit(2)
+		os.Exit(4)
 	}
 	journal, err := os.OpenFile(filepath.Join(out, fmt.Sprintf("journal-%d.txt", widx)), os.O_CREATE|os.O_WRONLY|os.O_TRUNC, 0o644)
 	if err != nil {
 		fmt.Fprintln(os.Stderr, "worker:", err)
-		os.Exit(2)
+		os.Exit(4)
 	}
 	defer journal.Close()
 	sum := &Summary{Worker: widx, Probes: map[string]int{}, Faults: map[string]int{}, KnownHits: map[string]int{}}
@@ -297,7 +297,7 @@ func batch(t *testing.T, e Engine) {
 			sig := oc.Verdict.Oracle + "|" + oc.Verdict.Site + "|" + oc.Pattern
 			if oc.Verdict.Oracle == "infra" {
 				fmt.Fprintf(os.Stderr, "worker: infrastructure failure seed=%d: %s\n", seed, oc.Verdict)
-				os.Exit(2)
+				os.Exit(4)
 			}
 			kn := matchKnown(known, oc.Verdict, oc.Pattern)
 			if kn != nil {
@@ -351,11 +351,11 @@ func writeJSON(path string, v interface{}) {
 	b, err := json.MarshalIndent(v, "", " ")
 	if err != nil {
 		fmt.Fprintln(os.Stderr, "worker: marshal:", err)
-		os.Exit(2)
+		os.Exit(4)
 	}
 	if err := os.WriteFile(path, b, 0o644); err != nil {
 		fmt.Fprintln(os.Stderr, "worker:", err)
-		os.Exit(2)
+		os.Exit(4)
 	}
 }
 
@@ -363,12 +363,12 @@ func loadReplay(path string) *Replay {
 	b, err := os.ReadFile(path)
 	if err != nil {
 		fmt.Fprintln(os.Stderr, "worker:", err)
-		os.Exit(2)
+		os.Exit(4)
 	}
 	rp := &Replay{}
 	if err := json.Unmarshal(b, rp); err != nil {
 		fmt.Fprintln(os.Stderr, "worker: bad replay file:", err)
-		os.Exit(2)
+		os.Exit(4)
 	}
 	return rp
 }
